@@ -128,8 +128,106 @@ class DictMembership(ast.NodeTransformer):
         return node
 
 
+class DotToLoop(ast.NodeTransformer):
+    """`t = [k *] np.dot(A[a:b], B[a:b])` (np.vdot conjugates its first operand) over one-dimensional slices is the sum it stands for:
+
+        _dvacc = 0;  for _dvl in range(0, b - a): _dvacc += A[a + _dvl] * B[a + _dvl];  t = [k *] _dvacc
+
+    so that rules written for the element-by-element loop read the vectorised spelling too.  `.real` / `.imag` / `.conj()` on a slice
+    move to the element.  Only whole right-hand sides of that shape are rewritten."""
+    def __init__(self):
+        self.n = 0
+
+    @staticmethod
+    def _operand(node):
+        """(base subscript, wrappers) for  X[a:b]  /  X[a:b].real  /  np.conj(X[a:b])  /  X[a:b].conj()"""
+        wraps = []
+        while True:
+            if isinstance(node, ast.Attribute) and node.attr in ("real", "imag"):
+                wraps.append(("attr", node.attr))
+                node = node.value
+            elif isinstance(node, ast.Call) and isinstance(node.func, ast.Attribute) and node.func.attr in ("conj", "conjugate") and not node.args \
+                    and not (isinstance(node.func.value, ast.Name) and node.func.value.id in ("np", "numpy")):
+                wraps.append(("conj", None))
+                node = node.func.value
+            elif isinstance(node, ast.Call) and isinstance(node.func, ast.Attribute) and node.func.attr in ("conj", "conjugate") and len(node.args) == 1 \
+                    and isinstance(node.func.value, ast.Name) and node.func.value.id in ("np", "numpy"):
+                wraps.append(("conj", None))
+                node = node.args[0]
+            else:
+                break
+        if isinstance(node, ast.Subscript) and isinstance(node.slice, ast.Slice) and node.slice.step is None and isinstance(node.value, (ast.Name, ast.Attribute)):
+            return node, wraps
+        return None
+
+    def _dot(self, node):
+        if isinstance(node, ast.Call) and isinstance(node.func, ast.Attribute) and isinstance(node.func.value, ast.Name) and node.func.value.id in ("np", "numpy") \
+                and node.func.attr in ("dot", "vdot", "inner") and len(node.args) == 2 and not node.keywords:
+            a, b = self._operand(node.args[0]), self._operand(node.args[1])
+            if a and b:
+                return node.func.attr, a, b
+        return None
+
+    def _rewrite(self, st, value):
+        import copy
+        # value: dot call, or a product with exactly one dot call factor
+        factors, dot = [], None
+        todo = [value]
+        while todo:
+            v = todo.pop()
+            if isinstance(v, ast.BinOp) and isinstance(v.op, ast.Mult):
+                todo.extend((v.right, v.left))
+            elif self._dot(v) and dot is None:
+                dot = self._dot(v)
+            else:
+                factors.append(v)
+        if dot is None or any(self._dot(f) for f in factors) or any(isinstance(n, ast.Call) and self._dot(n) for f in factors for n in ast.walk(f)):
+            return None
+        kind, (sa, wa), (sb, wb) = dot
+        self.n += 1
+        acc, lv = f"_dvacc{self.n}", f"_dvl{self.n}"
+        lo = sa.slice.lower or ast.Constant(0)
+        hi = sa.slice.upper
+        if hi is None:
+            return None
+        count = hi if (isinstance(lo, ast.Constant) and lo.value == 0) else ast.BinOp(copy.deepcopy(hi), ast.Sub(), copy.deepcopy(lo))
+
+        def elem(sub, wraps, conj_first):
+            lo_ = sub.slice.lower or ast.Constant(0)
+            idx = ast.Name(lv, ast.Load()) if (isinstance(lo_, ast.Constant) and lo_.value == 0) else ast.BinOp(copy.deepcopy(lo_), ast.Add(), ast.Name(lv, ast.Load()))
+            e = ast.Subscript(copy.deepcopy(sub.value), idx, ast.Load())
+            for w, arg in reversed(wraps):
+                e = ast.Attribute(e, arg, ast.Load()) if w == "attr" else ast.Call(ast.Attribute(ast.Name("np", ast.Load()), "conj", ast.Load()), [e], [])
+            if conj_first:
+                e = ast.Call(ast.Attribute(ast.Name("np", ast.Load()), "conj", ast.Load()), [e], [])
+            return e
+        term = ast.BinOp(elem(sa, wa, kind == "vdot"), ast.Mult(), elem(sb, wb, False))
+        init = ast.Assign([ast.Name(acc, ast.Store())], ast.Constant(0.0))
+        loop = ast.For(ast.Name(lv, ast.Store()), ast.Call(ast.Name("range", ast.Load()), [ast.Constant(0), count], []),
+                       [ast.AugAssign(ast.Name(acc, ast.Store()), ast.Add(), term)], [])
+        res = ast.Name(acc, ast.Load())
+        for f in factors:
+            res = ast.BinOp(f, ast.Mult(), res)
+        new_st = copy.copy(st)
+        new_st.value = res
+        out = [init, loop, new_st]
+        for o in out:
+            ast.copy_location(o, st)
+            ast.fix_missing_locations(o)
+        return out
+
+    def visit_Assign(self, node):
+        out = self._rewrite(node, node.value)
+        return out if out else node
+
+    def visit_AugAssign(self, node):
+        out = self._rewrite(node, node.value)
+        return out if out else node
+
+
 def normalise(tree):
     tree = DictMembership().visit(tree)
+    tree = DotToLoop().visit(tree)
     tree = _BoundFormat().visit(tree)
     tree = FormatToFString().visit(tree)
     return BuiltinFormat().visit(tree)
